@@ -101,6 +101,8 @@ def check_tree(ck, t, layout, ntheta, rng):
     X[3] = X[2]                       # coincident points
     X[5] = X[4] + 1e-9
     X[11] = X[10] + 3.0               # far apart (several length scales)
+    X[12] = X[10] + 90.0              # so far that squared-exponential factors underflow to exactly 0.0
+    X[13] = 0.0                       # the origin (a linear kernel is exactly 0 there)
     Y = rng.uniform(0.0, 1.0, size=(9, NFEAT))
     white = any(i == "White" for i in ids)
     # ---- theta layout
@@ -146,7 +148,9 @@ def check_tree(ck, t, layout, ntheta, rng):
     # ---- hyper-parameter gradient: shape and finite differences
     if has_grad(k, X):
         K0, dK = k(X, eval_gradient=True)
-        if dK.shape != (X.shape[0], X.shape[0], ntheta):
+        if not np.all(np.isfinite(dK)):
+            ck.violation("theta-gradient-non-finite:%s" % tag, {"tree": t, "n_bad": int((~np.isfinite(dK)).sum())}, replay={"tree": t})
+        elif dK.shape != (X.shape[0], X.shape[0], ntheta):
             ck.violation("theta-gradient-shape:%s" % tag, {"tree": t, "shape": list(dK.shape), "ntheta": ntheta}, replay={"tree": t})
         else:
             th = k.theta.copy()
@@ -185,6 +189,12 @@ def check_tree(ck, t, layout, ntheta, rng):
     if kk is not None:
         if np.abs(kk - KXY).max() > 1e-11 * (1 + np.abs(KXY).max()):
             ck.violation("k_and_deriv-value:%s" % tag, {"tree": t}, replay={"tree": t})
+        if not np.all(np.isfinite(dk)):
+            # where the kernel value is exactly zero (underflow, orthogonal / zero rows) its derivative is zero, not 0/0
+            ck.violation("input-gradient-non-finite:%s" % tag, {"tree": t, "n_bad": int((~np.isfinite(dk)).sum()),
+                                                                 "kernel_values_at_bad_entries": [float(x) for x in kk[~np.isfinite(dk).all(axis=2)][:4]]},
+                         replay={"tree": t})
+            dk = np.where(np.isfinite(dk), dk, 0.0)
         h = 1e-4
         for j in range(NFEAT):
             e = np.zeros(NFEAT)
